@@ -474,14 +474,15 @@ func Run(b *Behaviour) (events []sim.Ev) {
 		x.Client = nil
 	}
 	x.W.StallAfter = b.StallAfter
-	if x.Client != nil {
-		x.startProcs(b.Procs)
+	// (before the processes start: in free mode they are under way at once)
+	for _, t := range b.Mute {
+		x.W.Broker.Mute[t] = true
 	}
 	if b.Auto {
 		x.W.AutoBroker = true
 	}
-	for _, t := range b.Mute {
-		x.W.Broker.Mute[t] = true
+	if x.Client != nil {
+		x.startProcs(b.Procs)
 	}
 	for i := range b.Steps {
 		if !x.step(i, &b.Steps[i]) {
